@@ -53,7 +53,7 @@ def _rec_warn(text, level=0, silent=False):
 
 def plan(tier):
     n = 4000 if tier == 'quick' else 160000
-    return dict(n_cases=n, shards=16, min_nontrivial=n // 4,
+    return dict(n_cases=n, shards=16, min_nontrivial=n // 8,
                 min_hits={'static_NL_runs': n // 2, 'reported_states_judged': n // 2},
                 min_tags={'ev:D': 20, 'ev:S': 20, 'ev:M': 20, 'ev:X': 20, 'ev:BB': 20, 'hist:success_after_3_cutbacks': 20,
                           'hist:failure_at_full_load': 20, 'family:linear': 20},
